@@ -5,7 +5,8 @@ stdin : one JSON case per line   {"m": method, "args": [ARG...]}
         SURF := ["ev",n] ["sv",n] ["sym",n] ["imp",a,b] ["app",a,b] ["ex",x,a] ["mu",x,a]
                 ["mv",id,ef,sf,pos,neg,holes] ["esub",p,x,q] ["ssub",p,x,q]
                 ["neg",a] ["and",a,b] ["or",a,b] ["equiv",a,b] ["bot"] ["top"]      (notation nodes)
-stdout: one line per case
+stdout: a header line `INIT OK` | `INIT RAISE <exc>` (Tautology() raised; a bare instance is used) |
+        `INIT FATAL <exc>`, then one line per case
         OK <conc hex> <md5 of rule trace> <n rules> <stateful Proved hex> <basic Proved hex> <stack ok 0/1>
         RAISE <exception class>            building the thunk raised
         RUNFAIL <which> <exception class>  the thunk was built but running it raised
@@ -153,8 +154,30 @@ class Recording(StatefulInterpreter):
         return super().exists_generalization(proved, var)
 
 
+def make_instance():
+    """Tautology(); when the constructor itself raises (it builds the eight shipped proofs), fall back
+    to an instance whose Propositional.__init__ declares no proof expressions, so that the individual
+    rules can still be examined"""
+    try:
+        return Tautology(), 'INIT OK'
+    except Exception as e:  # noqa: BLE001
+        first = 'INIT RAISE ' + type(e).__name__
+    from proof_generation.proof import ProofExp
+    from proof_generation.proofs import propositional as P
+
+    def bare_init(self):
+        ProofExp.__init__(self, axioms=[], notations=list(P.PROPOSITIONAL_NOTATIONS))
+    P.Propositional.__init__ = bare_init
+    return Tautology(), first
+
+
 def main():
-    T = Tautology()
+    try:
+        T, header = make_instance()
+    except Exception as e:  # noqa: BLE001
+        print('INIT FATAL', type(e).__name__)
+        return
+    print(header)
     base = list(T._axioms)
     for line in sys.stdin:
         line = line.strip()
